@@ -169,6 +169,19 @@ CLAIMED = {
              "phase) is the machine-level part: post:C18:* obligations of the mailbox-cluster engine. Assumed: Twisted Deferred/"
              "Failure as boundary objects, stored calls may raise and may re-queue (append-only).",
         design="6/C18"),
+    "C03": dict(
+        text="Sender: Boss.S_send numbers the k-th send_message with the decimal numeral of k and hands it on once; Send.queue/drain/"
+             "deliver keep FIFO order and seal each message under its own phase label (loop invariant over the real body); "
+             "Mailbox.queue/dequeue keep a message in the re-send set until OUR message of that phase is echoed. Receiver: "
+             "Mailbox.N_release_and_accept forwards a phase at most once, Mailbox.rx_message never forwards our own side, "
+             "Order.queue/drain/deliver keep arrival order, Receive.got_message opens under the claimed label, Boss.got_message "
+             "dispatch, Boss.W_received reorder buffer (delivers phase n iff n is next; loop invariant), SequenceObserver / "
+             "EventualQueue / get_message hand results to the application first-in first-out through the eventual queue.",
+        note="The end-to-end statement 'received is a prefix of sent' is argued from these contracts (numbering + FIFO queues + dedup "
+             "+ reorder buffer + label-bound keys, C02); it is not one machine-checked obligation. Re-adding pending messages on "
+             "every new connection is C09 (Mailbox._drain + post:C09 obligations). Liveness (the prefix becomes the whole) is not "
+             "decided. Assumed: AEAD, the server stores what it was given.",
+        design="6/C03"),
 }
 NOT_BUILT = "check not built yet (framework under construction; see DESIGN.md section 11)"
 
